@@ -219,6 +219,33 @@ def validate_traces(ctx, tr, V):
             if not err <= 1e-10:
                 ctx.broken.append(("trace-validation:" + nm, "public value %r differs from traced formula %r" % (c, m)))
                 ctx.obligations["trace-validation:" + nm] = False
+        # a periodic-orbit object (uncorrected analytic seed is enough): energy / jacobi of its initial state
+        orb = L1.create_orbit("halo", amplitude_z=0.2, zenith="southern")
+        st6 = np.asarray(orb.initial_state, dtype=float)
+        env = dict(zip(NAMES, st6))
+        env["mu"] = mu
+        e_m = T.evalf(tr["energy"], env)
+        j_m = T.evalf(tr["energyToJacobi"], {"E": e_m})
+        for nm, m, c in (("PeriodicOrbit.energy", e_m, orb.energy), ("PeriodicOrbit.jacobi", j_m, orb.jacobi)):
+            err = abs(m - c) / (1 + abs(c))
+            ctx.traces_validated += 1
+            if not err <= 1e-10:
+                ctx.broken.append(("trace-validation:" + nm, "public value %r differs from traced formula %r" % (c, m)))
+                ctx.obligations["trace-validation:" + nm] = False
+                ctx.violation("reported-energy:" + nm, "%s = %r is not the first integral proved for the traced formulas (%r) at the orbit's initial state" % (nm, c, m),
+                              {"initial_state": st6.tolist(), "mu": mu, "reported": float(c), "traced_formula": float(m)})
+        # System.propagate: the public propagation entry point conserves the reported energy
+        try:
+            sol = sysm.propagate(st6, tf=1.0, steps=200)
+            states = np.asarray(getattr(sol, "states", sol[1] if isinstance(sol, tuple) else sol), dtype=float)
+            Es = np.array([en.crtbp_energy(y, mu) for y in states[::20]])
+            drift = float(np.abs(Es - Es[0]).max())
+            ctx.traces_validated += 1
+            if not drift <= 1e-6:
+                ctx.violation("energy-drift:System.propagate", "energy drifts by %g along System.propagate" % drift,
+                              {"mu": mu, "state0": st6.tolist(), "tf": 1.0, "drift": drift})
+        except TypeError as ex:
+            ctx.notes.append("System.propagate signature differs: %r" % (ex,))
     except Exception as ex:  # public API shape differs: report as broken correspondence, not as a pass
         ctx.broken.append(("trace-validation:public-objects", repr(ex)))
         ctx.obligations["trace-validation:public-objects"] = False
